@@ -24,7 +24,7 @@ COMPONENTS = {"real": ["whole Deep agent incl. Deep.start/shutdown, TriggerHandl
               "stub": ["threads/clock/executor", "sys.settrace/threading.settrace seam (wrapping, not replacing)",
                        "gRPC channel + DEEP service", "recording plugins"]}
 ASSUMPTIONS = [
-               "plugin failures are Exception subclasses"]
+               "plugin failures are Exception subclasses, or the agent's own refusal (IllegalStateException)"]
 TEXT = ("Seeded exploration of lifecycle histories with fault injection at shutdown; hook equality is observed on the "
         "real sys/threading hooks, liveness of the poll timer on simulated time, and 'no further actions' through "
         "hits from the main thread and from threads that were already running.")
@@ -49,6 +49,8 @@ def generate(seed, tier):
         # two agents in one process, one after the other, each built the way deep.start() builds them
         return {"arm": "two-agents", "no_trace": r.random() < 0.3, "knobs": common.draw_knobs(r, stall_p=0.0)}
     s = _generate(r)
+    # how a plugin's shutdown fails: an error of its own, or the agent's refusal of something it still wanted to do
+    s["plugin_shutdown_exc"] = r.choice(("Exception", "Exception", "Refused"))
     # start / shutdown / start / shutdown: the sequence goes on after the first shutdown
     s["restart"] = r.random() < 0.25
     if r.random() < 0.08:
@@ -164,6 +166,7 @@ def execute(s, ch):
         _rt.settrace(want_thr)
         for i in s["plugin_shutdown_raises"]:
             w.sink.faults.setdefault("LifeP%d" % i, {})["shutdown"] = "all"
+            w.sink.faults_exc["LifeP%d" % i] = s.get("plugin_shutdown_exc", "Exception")
         in_flight = {"v": False}
         if s.get("poll_in_flight"):
             # a slow service: the timer's first poll takes poll_in_flight seconds and then publishes a new configuration
